@@ -170,12 +170,18 @@ def check_serial(events, env, op_name, ref):
     first_start = {}
     last_event = {}
     errored = {p[0] for p in ref["error_paths"] if p}
+    # after a field error the executor abandons the nulled subtree and lets the awaitables already
+    # created there settle in the background (documented: "they must still be settled"); settling runs
+    # the rest of that subtree, including resolver calls below it, while the next top-level field may
+    # already have started.  Events at or below a position nulled by error propagation do not count.
+    nulled = [np_ for np_ in (null_position(ref["data"], p) for p in ref["error_paths"]) if np_ is not None]
     for i, (kind, path) in enumerate(events):
         k = path[0]
         if kind == "start" and len(path) == 1 and k not in first_start:
             first_start[k] = i
-        # after a field error the executor abandons the nulled subtree and lets awaitables that are
-        # already running settle in the background (documented); only new *starts* count there
+        if any(path[:len(np_)] == np_ for np_ in nulled) and len(path) > 1:
+            continue
+        # in a subtree with an error elsewhere only new *starts* count
         if kind == "start" or k not in errored:
             last_event[k] = i
     started = [k for k in order if k in first_start]
